@@ -307,7 +307,7 @@ def register():
     RUNNERS["C03"] = encoding_runner("C03", tasks.fam_C03, {S}, mixed=("task",))
     RUNNERS["C04"] = encoding_runner("C04", resources.fam_C04, {S}, audits=[("MC_Timeline_decl.cfg", None)], mixed=("resource",))
     RUNNERS["C06"] = encoding_runner("C06", optional.fam_C06, {S, Cm, "buffers", "indicators"}, mixed=("optional",))
-    RUNNERS["C08"] = encoding_runner("C08", indicators.fam_C08, {S, "indicators"})
+    RUNNERS["C08"] = encoding_runner("C08", indicators.fam_C08, {S, "indicators"}, mixed=("indicator",))
     RUNNERS["C09"] = encoding_runner("C09", buffers.fam_C09, {S, "buffers"}, audits=[("MC_Timeline_free.cfg", 40)], mixed=("buffer",))
     RUNNERS["C10"] = encoding_runner("C10", logic.fam_C10, {S, Cm}, mixed=("logic",))
     RUNNERS["C05"] = encoding_runner(
